@@ -349,11 +349,17 @@ def run_cases(mod, cases, env, jobs=None, case_timeout=None, chunk=None, progres
     if jobs is None:
         jobs = int(os.environ.get('VERIF_JOBS', '0')) or min(16, os.cpu_count() or 1)
     jobs = max(1, min(jobs, n))
+    # once STOP_AFTER_VIOLATIONS violations have come back the property is decided (exit 1); the remaining cases are not started
+    # (reported as not run / not exhaustive). A broken tree can make every further case slower without bound (state leaking
+    # between objects inside a worker). Never reached on a tree where the property holds.
+    stop_after = int(os.environ.get('VERIF_STOP_AFTER_VIOLATIONS', '2000'))
+    n_viol_seen = 0
     if jobs == 1 and case_timeout is None:
         for i in range(n):
-            if deadline is not None and time.time() > deadline:
+            if (deadline is not None and time.time() > deadline) or n_viol_seen >= stop_after:
                 break
             results[i] = _execute_case(mod, cases[i], env)
+            n_viol_seen += results[i].get('n_violations', 0)
         return results, capped, [i for i in range(n) if i not in results]
     if chunk is None:
         chunk = 1 if case_timeout is not None else max(1, min(64, n // (jobs * 8)))
@@ -363,7 +369,7 @@ def run_cases(mod, cases, env, jobs=None, case_timeout=None, chunk=None, progres
     t_last = time.time()
     try:
         while True:
-            stop = deadline is not None and time.time() > deadline
+            stop = (deadline is not None and time.time() > deadline) or n_viol_seen >= stop_after
             for w in workers:
                 if w.idle and queue and not stop:
                     ids = [queue.popleft() for _ in range(min(chunk, len(queue)))]
@@ -386,6 +392,7 @@ def run_cases(mod, cases, env, jobs=None, case_timeout=None, chunk=None, progres
                                 w.started = time.time()
                             elif msg[0] == 'done':
                                 results[msg[1]] = msg[2]
+                                n_viol_seen += msg[2].get('n_violations', 0)
                                 if msg[1] in w.pending:
                                     w.pending.remove(msg[1])
                                 w.current = None
